@@ -32,7 +32,7 @@ def run(ctx):
 	scratch = ctx.tmpdir()
 	run_id = len(os.listdir(scratch))
 	package = genmod.ScratchPackage(scratch, f'scratch_c15_{os.getpid()}_{run_id}')
-	schema_count = ctx.scale(12, 300)
+	schema_count = 60 if ctx.search_mode else ctx.scale(12, 200)  # the failing-input search after a broken obligation stays within a few minutes
 	features = {}
 	for index in range(schema_count):
 		generator = schemagen.SchemaGen(rng, variant=index + ctx.seed)
